@@ -82,6 +82,12 @@ func init() {
 			for k := 0; k < n; k++ {
 				cases = append(cases, crashMatrix(fmt.Sprintf("%s#%d", id, k), q, idx*7+k*11))
 			}
+			if cc.Stmt != nil {
+				// statements always also meet the chunk machinery: batches of 2 and 1 with the field cache on, over the stores
+				// with many rows of which some fail the filter (several chunks scanned per call)
+				cases = append(cases, crashCase{ID: id + "#b2", Q: q, Store: "num", Mode: "batch", BS: 2, Cache: true, Pad: -1},
+					crashCase{ID: id + "#b1", Q: q, Store: "big", Mode: "batch", BS: []int{1, 3}[idx%2], Cache: true, Pad: -1})
+			}
 		})
 		if err != nil {
 			out.Infra = append(out.Infra, err.Error())
